@@ -308,6 +308,19 @@ class Operable(Feature, metaclass=abc.ABCMeta):
         """Ensure the given feature is an ``Operable``."""
         return super().ensure_is(feature).operable
 
+    @property
+    def factors(self) -> 'dsl.Predicate.Factors':
+        """Predicate factors of this operable when used as a (boolean) condition.
+
+        Only the true :class:`dsl.Predicate <forml.io.dsl.Predicate>` instances (comparisons and
+        logical operators) break down to table-specific factors. Any other operable of the boolean
+        kind (a column, a literal...) is a valid condition as well but contributes no factors.
+
+        Returns:
+            Empty factors.
+        """
+        return Predicate.Factors()
+
     __hash__ = Feature.__hash__  # otherwise gets overwritten to None due to redefined __eq__
 
     def __eq__(self, other: 'dsl.Feature') -> 'Equal':
